@@ -853,6 +853,129 @@ def check_orthonormalize(inp):
         fails.append('boundary quantum numbers of a non-zero state changed')
     return fails
 
+
+# ------------------------------------------------------------------------------------------- C12
+
+def _trunc_rule_fails(all_s, kept_idx, tol):
+    fails = []
+    all_s = np.asarray(all_s, dtype=float)
+    w2 = float(np.sum(all_s ** 2))
+    if w2 == 0:
+        return fails
+    t = all_s ** 2 / w2
+    kept = np.zeros(len(all_s), dtype=bool); kept[list(kept_idx)] = True
+    dsum = float(np.sum(t[~kept]))
+    eps = 1e-12
+    if dsum > tol + eps:
+        fails.append(f'discarded relative weight {dsum} exceeds the tolerance {tol}')
+    if np.any(kept) and np.any(~kept) and np.min(t[kept]) < np.max(t[~kept]) - eps:
+        fails.append('a kept singular value is smaller than a discarded one')
+    if np.any(kept) and dsum + float(np.min(t[kept])) <= tol - eps:
+        fails.append('truncation is not maximal: one more singular value could have been discarded')
+    if np.any(all_s[kept] <= 0):
+        fails.append('a kept singular value is not positive')
+    return fails
+
+
+@check('svd_split')
+def check_svd_split(inp):
+    from pytenet.bond_ops import split_matrix_svd
+    A = arr(inp['A']); q0 = np.array(inp['q0'], dtype=int); q1 = np.array(inp['q1'], dtype=int)
+    if np.all(A.imag == 0):
+        A = A.real.astype(float)
+    tol = float(inp['tol'])
+    m, n = A.shape
+    A0 = A.copy()
+    try:
+        u, s, v, q = split_matrix_svd(A, q0, q1, tol)
+    except Exception as e:
+        return [f'split_matrix_svd raised {type(e).__name__}: {e}']
+    fails = []
+    k = len(s)
+    if u.shape != (m, k) or v.shape != (k, n) or len(q) != k:
+        return [f'shape mismatch u{u.shape} v{v.shape} len(s)={k} len(q)={len(q)}']
+    if not np.array_equal(A, A0):
+        fails.append('input array was modified')
+    sc = float(np.max(np.abs(A0))) if A0.size else 1.0
+    prod = (u * s) @ v
+    if not np.any(A0):
+        if np.any(np.abs(prod) > TOL):
+            fails.append('zero matrix: product is not zero')
+        return fails
+    common = np.intersect1d(q0, q1)
+    # full spectrum by an independent block-wise SVD
+    full = []
+    for qn in common:
+        blk = A0[np.ix_(q0 == qn, q1 == qn)]
+        full += list(np.linalg.svd(blk, compute_uv=False))
+    full = np.array(sorted(full, reverse=True))
+    kept_sorted = np.array(sorted(np.asarray(s, dtype=float), reverse=True))
+    if k > len(full) or not np.allclose(kept_sorted, full[:k], atol=1e-9 * max(1.0, sc)):
+        fails.append('returned singular values are not the largest singular values of the matrix')
+    else:
+        fails += _trunc_rule_fails(full, range(k), tol)
+    if np.any(np.asarray(s) <= 0):
+        fails.append('a returned singular value is not positive')
+    if k:
+        if not close(u.conj().T @ u, np.identity(k)) or not close(v @ v.conj().T, np.identity(k)):
+            fails.append('u or v is not an isometry')
+    err = float(np.linalg.norm(A0 - prod))
+    disc = float(np.sqrt(max(0.0, np.sum(full[k:] ** 2)))) if k <= len(full) else 0.0
+    if abs(err - disc) > 1e-8 * max(1.0, sc):
+        fails.append(f'||A - u s v||_F = {err} differs from sqrt of the discarded squared singular values {disc}')
+    if tol == 0 and err > 1e-8 * max(1.0, sc):
+        fails.append('tol = 0 but the product differs from the matrix')
+    fails += qsparse_fail(u, [q0, -np.asarray(q)], 'u') + qsparse_fail(v, [np.asarray(q), -q1], 'v')
+    return fails
+
+
+@check('retained')
+def check_retained(inp):
+    from pytenet.bond_ops import retained_bond_indices
+    s = np.array(inp['s'], dtype=float); tol = float(inp['tol'])
+    s0 = s.copy()
+    try:
+        idx = retained_bond_indices(s, tol)
+    except Exception as e:
+        return [f'retained_bond_indices raised {type(e).__name__}: {e}']
+    fails = []
+    if not np.array_equal(s, s0):
+        fails.append('retained_bond_indices modified the singular values handed to it')
+    idx = [int(i) for i in idx]
+    if sorted(set(idx)) != idx or any(not (0 <= i < len(s)) for i in idx):
+        return fails + [f'indices {idx} invalid']
+    if not np.any(s0):
+        return fails + (['zero vector but indices retained'] if idx else [])
+    return fails + _trunc_rule_fails(s0, idx, tol)
+
+
+@check('split_tol')
+def check_split_tol(inp):
+    from pytenet.mps import split_mps_tensor, merge_mps_tensor_pair
+    A = np.array(inp['A'], dtype=float); A0 = A.copy()
+    qd0, qd1 = np.array(inp['qd0'], dtype=int), np.array(inp['qd1'], dtype=int)
+    qD = [np.array(x, dtype=int) for x in inp['qD']]
+    tol = float(inp['tol'])
+    try:
+        B0, B1, qb = split_mps_tensor(A, qd0, qd1, qD, inp['distr'], tol=tol)
+    except Exception as e:
+        return [f'split_mps_tensor raised {type(e).__name__}: {e}']
+    fails = []
+    if not np.array_equal(A, A0):
+        fails.append('split_mps_tensor modified its argument')
+    d0, d1 = len(qd0), len(qd1)
+    M = A0.reshape((d0, d1, A0.shape[1], A0.shape[2])).transpose((0, 2, 1, 3)).reshape((d0 * A0.shape[1], d1 * A0.shape[2]))
+    full = np.linalg.svd(M, compute_uv=False)
+    k = len(qb)
+    err = float(np.linalg.norm(merge_mps_tensor_pair(B0, B1) - A0))
+    disc = float(np.sqrt(np.sum(full[k:] ** 2)))
+    if abs(err - disc) > 1e-8 * max(1.0, float(np.max(np.abs(A0)))):
+        fails.append(f'split error {err} differs from the discarded singular values {disc}')
+    if np.any(A0):
+        fails += _trunc_rule_fails(full, range(k), tol)
+    fails += qsparse_fail(B0, [qd0, qD[0], -np.asarray(qb)], 'A0') + qsparse_fail(B1, [qd1, np.asarray(qb), -qD[1]], 'A1')
+    return fails
+
 # -------------------------------------------------------------------------------------------
 
 def main():
